@@ -26,7 +26,7 @@ RULE = ("exhaustive: every pair (table, queries) of sorted multisets of <=2 rows
         "in_range / in_ranges for a chromosome absent from a non-empty table; in_ranges with 1-3 possibly unsorted / "
         "repeated queries given as list, tuple, ndarray (int, float) or Series with foreign labels, and with starts "
         "or ends or both None; into_ranges on a float column (default nanmedian, also with NaN values), with a "
-        "supplied function (max, len, last, np.nanmean), with a non-callable constant, with a string column + "
+        "supplied function (max, len, last, np.nanmean, and the combiners first_of / last_of / join_strings of skgenome.combiners), with a non-callable constant, with a string column + "
         "function, for a missing column, with NaN / numeric defaults, positional and keyword.  non-trivial = some "
         "query overlaps some row of the same chromosome; distinct by hash of (op, input)")
 EXHAUSTIVE = {"quick": True, "thorough": True}
@@ -34,7 +34,7 @@ ASSUMPTIONS = ["queried table sorted by (chromosome key, start, end), start < en
                "one chromosome are contiguous in the query table (their order within it is free)"]
 TRUSTED_EXTRA = ["numpy searchsorted on a monotone column = counting (Basic.ssLeft/ssRight)",
                  "into_ranges with a supplied callable: the callables the generator passes (max, len, last, np.nanmean) are "
-                 "re-implemented by name in Driver/RangesExt.lean (namedFunc); everything else of into_ranges (default, "
+                 "re-implemented by name in Driver/RangesExt.lean (namedFunc; first_of / last_of / join_strings are the model's own combiners); everything else of into_ranges (default, "
                  "single hit, join_strings, nanmedian, first_of, constant, missing column) is the Lean model intoRangesGA"]
 MODES = ("outer", "inner", "trim")
 BIG = 10 ** 9
@@ -106,8 +106,8 @@ def _range_ops(t, queries, chroms=None):
 
 # ---- into_ranges beyond the string column --------------------------------------------------------------------
 
-FLOAT_FUNCS = (None, None, None, "max", "len", "last", "nanmean", "const")
-STR_FUNCS = ("len", "last", "const")
+FLOAT_FUNCS = (None, None, None, "max", "len", "last", "nanmean", "const", "first_of", "last_of")
+STR_FUNCS = ("len", "last", "const", "join_strings", "last_of")   # first_of / last_of / join_strings: skgenome.combiners
 
 
 def _into_col_case(rng, a, b):
@@ -459,8 +459,10 @@ def run_impl(case):
         a0, a = table("a", extra)
         b0, b = table("b")
         f = i["func"]
+        from skgenome import combiners
         func = {None: None, "max": max, "len": len, "last": (lambda ser: ser.iat[-1]), "nanmean": np.nanmean,
-                "const": i.get("const")}[f]
+                "const": i.get("const"), "first_of": combiners.first_of, "last_of": combiners.last_of,
+                "join_strings": combiners.join_strings}[f]
         default = float("nan") if i["default"] is None else i["default"]
         params = [("other", b, False, None), ("column", i["col"], False, None), ("default", default, False, None)]
         if f is not None or form == "kw":
